@@ -96,7 +96,9 @@ def items(tier):
           ("txt-vec1", "log.txt", None, None, [[1]]),
           ("txt-transposed-view", "log.txt", None, None, [[3, 2, "T"], []]),
           ("csv-transposed-view", "log.csv", None, None, [[2], [2, 3, "T"]]),
-          ("txt-in-csv-dir", "run.csv.d/log.txt", None, None, [[], [2]])]
+          ("txt-in-csv-dir", "run.csv.d/log.txt", None, None, [[], [2]]),
+          ("csv-uppercase-extension", "LOG.CSV", None, None, [[], [2]]),
+          ("csv-mixedcase-extension-semicolon", "Run1.Csv", ";", None, [[2]])]
     for name, f, sep, fmt, sig in sc:
         out.append(dict(kind="scalar", id="scalar-" + name, file=f, separator=sep, fmt=fmt, signals=sig, calls=b["scalar_calls"]))
     return out
@@ -349,6 +351,21 @@ def _parse_vti(K, data, n3, spacing, origin):
         K.holds("%s-has-3-entries" % what, len(ent) == 3, "vti-geometry")
         for q in range(min(3, len(ent))):
             K.eq("%s[%d]" % (what, q), _value(ent[q]), exp[q], "vti-geometry")
+            m_ = _RTOK.fullmatch(ent[q])
+            if m_ is not None:
+                # symbolic run: the number was rendered through a format specification; anything but the shortest
+                # round-trip form (str / repr, 17 significant digits) writes another number for generic values
+                spec = m_.group(2)
+                K.holds("%s[%d]-written-with-full-precision" % (what, q), spec in ("", "r", "s", "!r", ".17g", ".17e", ".16e"),
+                        "vti-geometry", info=dict(format_spec=spec))
+            else:
+                # real run: the decimal text must read back to exactly the number (no digits lost)
+                try:
+                    same = float(ent[q]) == float(exp[q])
+                except (TypeError, ValueError):
+                    same = False
+                K.holds("%s[%d]-written-with-full-precision" % (what, q), same, "vti-geometry",
+                        info=dict(text=ent[q], expected=repr(exp[q]) if not isinstance(exp[q], R) else None))
     secs = [ch.tag for ch in piece]
     K.holds("sections", all(s in ("PointData", "CellData") for s in secs) and len(set(secs)) == len(secs),
             "vti-structure", info=secs)
@@ -880,4 +897,12 @@ def replay(cfg, label, env, case):
     if label in fails:
         return dict(reproduced=True, detail=dict(clause=label, observed=fails[label], inputs=inputs(),
                                                  other_failing=[k for k in fails if k != label][:6]))
+    if "full-precision" in label and not case.get("_probe"):
+        # the solver's witness may consist of round numbers (1/8, 2) that survive any formatting: evaluate the same clause
+        # at generic values of the same inputs (fallback probe, DESIGN 3.7 step 6)
+        env2 = {k: (v * 1.0123456789012345 + 1e-7 * 0.987654321 if isinstance(v, float) else v) for k, v in env.items()}
+        r2 = replay(cfg, label, env2, dict(case, _probe=True))
+        if r2.get("reproduced"):
+            r2["detail"] = dict(found_by="fallback-probe (generic values of the same inputs)", probe=r2.get("detail"))
+            return r2
     return dict(reproduced=False, detail=dict(clause=label, inputs=inputs(), failing=list(fails)[:6]))
